@@ -231,6 +231,8 @@ def run(ctx):
     from .persist import rule_close_writes
     rule_tracked_dump(ctx, r2)
     rule_close_writes(ctx, r2, ("tracked jobs",))
+    from .persist import rule_table_ownership
+    rule_table_ownership(ctx, r2, ("tracked jobs",))
     from .shared import rule_coroutines_awaited
     rule_coroutines_awaited(ctx, r2)
     # "... and of no other target": the tracked jobs consulted are those of the project the command is run in (or given with -f), not of a project named by the environment
